@@ -1193,6 +1193,10 @@ def correspond(ctx):
     _corr_norm(ctx, norm_cases)
     # histories on one object: the hidden state (cached reciprocal vectors) must never show
     hists = [_gen_hist(rng, 'grid' if it % 3 == 0 else 'float') for it in range(ctx.n(150, 2500))]
+    # the single calls above once more as one- and two-step histories: compared with the object-level model (which
+    # includes the clean-up of the setter) at the derived rounding bound instead of the 1e-9 of the single-call path
+    hists += [{'case': dict(c), 'ops': [{'op': 'wrap'}, {'op': 'wrap'}]} for c in wrap_cases]
+    hists += [{'case': dict(c), 'ops': [{'op': 'norm'}]} for c in norm_cases]
     _corr_hist(ctx, hists)
 
 
@@ -1255,6 +1259,12 @@ def _wrap_clauses_sys(system, grid, fail):
     nVN = _normV(system.box.vects)
     omaxN = max(abs(float(x)) for x in no)
     sall = max(max(abs(float(x)) for x in s) for s in sold)
+    # the Box.vects setter zeroes components below 1e-9 of the largest one: when a non-periodic vector is lengthened
+    # a small component of any vector may disappear (documented behaviour of the setter, see ASSUMPTIONS); the
+    # positions were rebuilt with the old vectors, so they may then be off the new cell by that much
+    maxN = max(abs(float(x)) for r in NV for x in r)
+    cleaned = any(NV[k][j] == 0 and V[k][j] != 0 for k in range(3) for j in range(3))
+    clean = CLEAN * maxN * rinvN * 3 if cleaned else 0.0
     for i in range(len(old)):
         smax = max(abs(float(x)) for x in sold[i])
         tol = _ep(kap, smax, nV, omax)
@@ -1280,7 +1290,7 @@ def _wrap_clauses_sys(system, grid, fail):
                             f'vectors: not a whole number along axis {k} (off by {off:.3g}, rounding bound {rtol_:.3g})')
         # (2) every atom inside the new cell (faces included)
         sn = _rel(new[i], NV, NVi, no)
-        stol = 0 if grid and all(pbc) else _er(kap, smax, omax, rinv) + _er(kapN, 1.0, omaxN, rinvN)
+        stol = 0 if grid and all(pbc) else _er(kap, smax, omax, rinv) + _er(kapN, 1.0, omaxN, rinvN) + clean
         for k in range(3):
             if float(sn[k]) < -stol or float(sn[k]) > 1 + stol:
                 return fail('wrap:outside', f'atom {i} is outside the cell after wrap (pbc {pbc}): relative coordinate '
@@ -1288,10 +1298,7 @@ def _wrap_clauses_sys(system, grid, fail):
     # (3) periodic cell vectors untouched; non-periodic ones only lengthened; old cell inside the new
     lo = _vm([a - b for a, b in zip(no, o)], Vi)          # new origin in old relative coordinates
     tol3 = 8 * U * (omax + (1 + sall) * nV) * rinv + _es(kap, sall)
-    # the Box.vects setter zeroes components below 1e-9 of the largest one: when a non-periodic vector is lengthened
-    # a small component of any vector may disappear (documented behaviour of the setter, see ASSUMPTIONS)
-    maxN = max(abs(float(x)) for r in NV for x in r)
-    clean = CLEAN * maxN * rinv * 3
+    clean = CLEAN * maxN * rinv * 3 if cleaned else 0.0
     for k in range(3):
         w = _vm(NV[k], Vi)                                 # new vector k in units of the old vectors
         if pbc[k]:
@@ -1318,7 +1325,7 @@ def _wrap_clauses_sys(system, grid, fail):
     except Exception as e:  # noqa
         return fail('wrap:raises', f'second wrap raised {type(e).__name__}: {e}')
     snap2 = _snap(system)
-    band = _er(kap, sall, omax, rinv) + _er(kapN, 1.0, omaxN, rinvN)
+    band = _er(kap, sall, omax, rinv) + _er(kapN, 1.0, omaxN, rinvN) + (CLEAN * maxN * rinvN * 3 if cleaned else 0.0)
     near = any(abs(float(x) - round(float(x))) <= band for p in new for x in _rel(p, NV, NVi, no))
     if not near or (grid and all(pbc)):
         if flags2.any():
@@ -1331,15 +1338,30 @@ def _wrap_clauses_sys(system, grid, fail):
     return None
 
 
+_NEIGH = None
+
+
 def _min_image_d2(d, V, Vi_np, V_np):
     """exact squared length of the nearest image of separation d (Fractions) under lattice V (fully periodic).
     A first candidate (rounding of the relative separation) gives a distance dc; every closer image has relative
     coordinates |s_k + n_k| <= dc |column k of V^-1|, so the finite box of integers searched is provably sufficient.
     Candidates are ranked in floating point, the best few are evaluated exactly. None if the box is too large."""
     import numpy as np
+    global _NEIGH
+    if _NEIGH is None:
+        _NEIGH = np.array([[i, j, k] for i in (-1, 0, 1) for j in (-1, 0, 1) for k in (-1, 0, 1) if (i, j, k) != (0, 0, 0)],
+                          dtype=float)
     dn = np.array([float(x) for x in d])
     s = dn @ Vi_np
     n0 = -np.round(s)
+    # greedy descent over the 26 neighbouring images: a good first candidate keeps the box below small
+    for _ in range(400):
+        c = dn + (n0 + _NEIGH) @ V_np
+        q = (c * c).sum(axis=1)
+        t = int(np.argmin(q))
+        if q[t] >= ((dn + n0 @ V_np) ** 2).sum() * (1 - 1e-12):
+            break
+        n0 = n0 + _NEIGH[t]
     dc = float(np.linalg.norm(dn + n0 @ V_np)) * (1 + 1e-9) + 1e-12
     lo, hi = [], []
     for k in range(3):
@@ -1349,7 +1371,7 @@ def _min_image_d2(d, V, Vi_np, V_np):
     size = 1
     for k in range(3):
         size *= max(hi[k] - lo[k] + 1, 1)
-    if size > 2_000_000:
+    if size > 300_000:
         return None
     rng0 = [np.arange(lo[k], hi[k] + 1, dtype=float) if hi[k] >= lo[k] else np.array([n0[k]]) for k in range(3)]
     n = np.stack(np.meshgrid(*rng0, indexing='ij'), axis=-1).reshape(-1, 3)
